@@ -2,6 +2,7 @@ package nc
 
 import (
 	"fmt"
+	"go/constant"
 	"go/token"
 	"go/types"
 	"strings"
@@ -548,6 +549,109 @@ type c10Copy struct {
 // onCase: can instruction u execute in the case cp? (fails open: what cannot be excluded is on the case)
 func (cp c10Copy) onCase(u ssa.Instruction) bool {
 	return len(cp.own) == 0 || mayBeInCase(u.Block(), cp.own, cp.within)
+}
+
+// ---- C10.4: a fitness update composed on a local ----
+
+// c10ScaledFitness: is v a positively scaled image of the organism's own fitness (term `self`) on all positive
+// fitness values - so that storing it keeps the order of distinct positive values? By structure:
+//
+//	the fitness itself (a load of self)
+//	m * k, k * m, m / k     m such an image, k a positive constant or a value that does not depend on the fitness
+//	                        (an option value, the species size: what the per-store rule accepts as a factor)
+//	a join of such images; one alternative of a join may be a constant when control reaches it only under
+//	m' < c or m' <= c with c <= 0 for such an image m' - it is then not taken for a positive fitness
+//	                        (the replacement of a negative fitness)
+//
+// Everything else (sums, a product of two images, a constant on an unguarded path, a factor of zero or below, a
+// loop-carried value) is refused with a description.
+func c10ScaledFitness(ta *Termer, v ssa.Value, self string) (bool, string) {
+	var steps []string
+	seen := map[ssa.Value]bool{}
+	dependsOnSelf := func(t *Term) bool {
+		return t.Has(func(x *Term) bool { return x.String() == self })
+	}
+	var scaled func(v ssa.Value, depth int) (bool, string)
+	factor := func(k ssa.Value) (bool, string) {
+		if c, isC := k.(*ssa.Const); isC {
+			if c.Value == nil || (c.Value.Kind() != constant.Int && c.Value.Kind() != constant.Float) || constant.Sign(c.Value) <= 0 {
+				return false, "scaled by the constant " + ta.Of(k).String()
+			}
+			return true, ""
+		}
+		if kt := ta.Of(k); dependsOnSelf(kt) {
+			return false, "scaled by " + kt.String() + ", which depends on the fitness"
+		}
+		return true, ""
+	}
+	scaled = func(v ssa.Value, depth int) (bool, string) {
+		t := ta.Of(v)
+		if t.String() == self {
+			return true, ""
+		}
+		if depth > 12 || seen[v] {
+			return false, "set to " + t.String()
+		}
+		seen[v] = true
+		defer func() { seen[v] = false }()
+		switch x := v.(type) {
+		case *ssa.BinOp:
+			switch x.Op {
+			case token.MUL, token.QUO:
+				m, k := x.X, x.Y
+				if ok, _ := scaled(m, depth+1); !ok && x.Op == token.MUL {
+					m, k = x.Y, x.X
+				}
+				if ok, why := scaled(m, depth+1); !ok {
+					return false, why
+				}
+				if ok, why := factor(k); !ok {
+					return false, why
+				}
+				steps = append(steps, x.Op.String()+" "+ta.Of(k).String())
+				return true, ""
+			}
+		case *ssa.Phi:
+			for i, e := range x.Edges {
+				if c, isC := e.(*ssa.Const); isC {
+					pred := x.Block().Preds[i]
+					gs := Guards(pred)
+					if iff, isIf := pred.Instrs[len(pred.Instrs)-1].(*ssa.If); isIf && len(pred.Succs) == 2 && pred.Succs[0] != pred.Succs[1] {
+						gs = append(gs, Guard{iff.Cond, pred.Succs[0] == x.Block(), pred})
+					}
+					okC := false
+					for _, g := range resolveGuards(gs) {
+						f, isF := c10FactOf(ta, g, nil)
+						if !isF || (f.Op != token.LSS && f.Op != token.LEQ) {
+							continue
+						}
+						k, isK := f.Y.(*ssa.Const)
+						if !isK || k.Value == nil || (k.Value.Kind() != constant.Int && k.Value.Kind() != constant.Float) || constant.Sign(k.Value) > 0 {
+							continue
+						}
+						if ok, _ := scaled(f.X, depth+1); ok {
+							okC = true
+							steps = append(steps, "replaced by "+ta.Of(c).String()+" when "+f.Op.String()+" "+f.TY.String())
+						}
+					}
+					if !okC {
+						return false, "replaced by the constant " + ta.Of(c).String() + " on a path that is taken for positive fitness values too"
+					}
+					continue
+				}
+				if ok, why := scaled(e, depth+1); !ok {
+					return false, why
+				}
+			}
+			return true, ""
+		}
+		return false, "set to " + t.String()
+	}
+	ok, why := scaled(v, 0)
+	if ok {
+		why = "composed: " + strings.Join(steps, ", ")
+	}
+	return ok, why
 }
 
 // ---- comparison facts, independent of spelling ----
